@@ -28,6 +28,7 @@ type Obligation struct {
 	Inputs  map[string]*Term // named symbolic inputs, for counterexample extraction
 	Result  *SolveResult
 	KnownAs string
+	ModelKeys []string
 }
 
 type Exec struct {
@@ -520,6 +521,7 @@ func (ex *Exec) execLoop(fr *frame, l *Loop, in []edge) []edge {
 	for _, inv := range spec.Invariants {
 		ex.assume(h, ex.evalBool(ex.ctxFor(fr, h, lc), inv))
 	}
+	h0 := h.fork() // the loop-head state of an arbitrary iteration (for two-state step clauses)
 	var variant0 *Term
 	if spec.Decreases != nil {
 		variant0 = ex.evalTerm(ex.ctxFor(fr, h, lc), spec.Decreases)
@@ -546,6 +548,15 @@ func (ex *Exec) execLoop(fr *frame, l *Loop, in []edge) []edge {
 			o := ex.oblige(bs, fmt.Sprintf("loop%d.preserve", l.Ordinal), fmt.Sprintf("invariant %d: %s", i, inv.Text), g, pos)
 			if o != nil {
 				o.Clause = inv
+			}
+		}
+		for i, sc := range spec.Steps {
+			cx := ex.ctxFor(fr, bs, lc)
+			cx.old = h0
+			g := ex.evalBool(cx, sc)
+			o := ex.oblige(bs, fmt.Sprintf("loop%d.step", l.Ordinal), fmt.Sprintf("step %d: %s", i, sc.Text), g, pos)
+			if o != nil {
+				o.Clause = sc
 			}
 		}
 		if spec.Decreases != nil {
@@ -677,6 +688,7 @@ func (ex *Exec) execInstr(fr *frame, st *State, in ssa.Instruction) {
 		ptr := &PtrV{Kind: PHeap, Ref: ref, Root: el}
 		// zero-initialise
 		ex.frameOff(func() { ex.storeNoNilCheck(st, ptr, ex.tm.Zero(el)) })
+		ex.initGhostFields(st, ref, el)
 		st.vals[in] = ref
 	case *ssa.Store:
 		addr := ex.val(st, in.Addr)
@@ -1176,4 +1188,30 @@ func (ex *Exec) makeInterface(st *State, in *ssa.MakeInterface) Val {
 	ex.boxes[b] = boxInfo{xt, in.X.Type()}
 	ex.noteDynType(b, in.X.Type())
 	return b
+}
+
+// initGhostFields: ghost fields declared "of" a type start at their zero value for fresh objects of that type.
+func (ex *Exec) initGhostFields(st *State, ref *Term, t types.Type) {
+	n, ok := types.Unalias(t).(*types.Named)
+	if !ok || n.Obj().Pkg() == nil {
+		return
+	}
+	full := n.Obj().Pkg().Path() + "." + n.Obj().Name()
+	for _, gf := range ex.P.CS.GhostFields {
+		if gf.OfType != full {
+			continue
+		}
+		s := ex.specSort(gf.Sort, "")
+		r := ex.getRegion(st, "gf:"+gf.Name, ex.p.ArraySort(IntSort, s))
+		var z *Term
+		switch s.Kind {
+		case SInt:
+			z = ex.p.Int(0)
+		case SBool:
+			z = ex.p.False()
+		default:
+			continue
+		}
+		st.heap["gf:"+gf.Name] = ex.p.Store(r, ref, z)
+	}
 }
